@@ -2,6 +2,7 @@ import Proofs.BatchLemmas
 import Pegnet.Generated.Facts
 import Proofs.Averages
 import Proofs.Process
+import Proofs.RestartAvg
 /-
   C13 — Conversion admission rules by height.
 -/
@@ -260,6 +261,28 @@ theorem shipped_window : Generated.averagePeriod = 288 ∧ Generated.averageRequ
   decide
 end Pegnet.C13
 
+namespace Pegnet.C13
+open Pegnet
+/-- **"whose average is unavailable", on the rate table.** Along any chain applied in order whose
+    averaging windows have no hole, the average the next block uses for asset `t` is unavailable (0)
+    exactly when the height window ending at the last rated height before the block holds fewer than
+    `AverageRequired` non-zero quotes of `t` (or their mean rounds to 0); otherwise it is the mean of
+    the window's quotes. So which conversions the averages requirement forbids at a block is a
+    function of the committed rate table alone. -/
+theorem average_available_iff_window_has_quotes (P : Params) (hp : 0 < P.avgPeriod) (bs : List Block) (b : Block)
+    (hw : WholeChain P (freshNode P) (bs ++ [b])) (t : Ticker) :
+    let n := runBlocks P (freshNode P) bs
+    let w := window P n.db (n.db.mostRecentRatesBefore b.height).2 t
+    (getAverages P { n.db with avgTouched := false } n.cache
+        (({ n.db with avgTouched := false } : DB).mostRecentRatesBefore b.height).2).2.get t
+      = if nonZero w < P.avgRequired then 0 else (w.sum % 18446744073709551616) / w.length := by
+  obtain ⟨h1, _, h3⟩ := wholeChain_append P bs b _ hw
+  have := pricing_average_is_window_mean P hp _ b
+    (runBlocks_good P hp bs _ ⟨cacheOK_empty P, cacheSem_empty P _, Nat.zero_le _⟩ h1) h3 t
+  dsimp only
+  rw [this, avgOf_spec P _ (window_length P _ _ t)]
+end Pegnet.C13
+
 #print axioms Pegnet.C13.admission_table
 #print axioms Pegnet.C13.forbidden_destination_no_effect
 #print axioms Pegnet.C13.pfct_one_way
@@ -274,3 +297,4 @@ end Pegnet.C13
 #print axioms Pegnet.C13.thin_window_conversion_dropped
 #print axioms Pegnet.C13.shipped_schedule
 #print axioms Pegnet.C13.shipped_window
+#print axioms Pegnet.C13.average_available_iff_window_has_quotes
